@@ -27,10 +27,11 @@ Proof. exact read_string_write. Qed.
     engine-clock [now'] and wall clock [wl] ([chk]: overflow checks on/off).
     [rt_guard now ws wl ds] (decidable, Model/Rdb.v): 16 databases; per database fewer than
     2^32 keys, all distinct; every key not yet expired at the save has a length below 2^32, a
-    well-formed value (lengths and counts below 2^32; a list is non-empty and does not start
-    with the stream marker; set members / hash fields distinct; a sorted set is non-empty, has
-    no NaN score and is what the skip list holds (sorted by (score, member), no member twice); a stream is non-empty, its IDs strictly
-    increase from above 0-0, every entry has at least one field and distinct field names) and,
+    well-formed value (lengths and counts below 2^32; a list is non-empty - it may start with the
+    stream marker, which the writer then doubles; set members / hash fields distinct; a sorted set is non-empty, has
+    no NaN score and is what the skip list holds (sorted by (score, member), no member twice); a stream (possibly
+    empty) has IDs strictly increasing from above 0-0 and distinct field names per entry (an entry may
+    have no field)) and,
     if it has a deadline, an expiry time that fits u64 (nothing is required of the load time [wl]:
     the deadline may pass while the server is down).
     [aged_db]: the keys alive at the save, the same values (streams without their consumer
@@ -79,6 +80,11 @@ Definition f_nzero := 9223372036854775808.        (* -0.0 *)
 Definition example_ds : list db :=
   mkdb [ (bs "s", ent (VStr [0; 255; 13; 10]) (Some 101000));
          ([], ent (VList [bs "a"; marker; []]) None);
+         (bs "ml", ent (VList [marker; bs "1-1"; bs "1"; bs "f"; bs "v"]) None);     (* a list that looks like a stream *)
+         (bs "m1", ent (VList [marker]) (Some 300000));
+         (bs "es", ent (VStream {| s_entries := []; s_last := (0, 0); s_ams := 0; s_aseq := 0; s_len := 0; s_groups := [] |}) None);
+         (bs "nf", ent (VStream {| s_entries := [((5, 1), [(bs "f", bs "v")]); ((6, 0), [])]; s_last := (6, 0);
+                                   s_ams := 6; s_aseq := 0; s_len := 2; s_groups := [] |}) None);
          (marker, ent (VSet [bs "x"; bs "y"]) (Some 5000000));
          (bs "h", ent (VHash [(bs "f", bs "1"); (bs "g", [])]) None);
          (bs "z", ent (VZSet [(bs "a", f_nzero); (bs "b", 0); (bs "m", f_one); (bs "a2", f_pinf)]) None);
@@ -91,8 +97,16 @@ Example c09_roundtrip_example :
   load_status (load 61000 1700000060000 (save (bs "0.1.0") 1700000000 1000 1700000000000 example_ds)) = LOk.
 Proof. vm_compute. reflexivity. Qed.
 
-(** ---- what the guard excludes: each class is refuted on the model (and reproduced on the
-    implementation by the witnesses of known_findings.json) ---- *)
+(** the former classes marker-collision, empty-stream-lost, stream-entry-without-fields
+    (repaired by 6aaeb35, 1a77fe9, 31c6d8d) are inside the guard: the datasets "ml", "m1", "es", "nf"
+    above; a list that starts with the marker is written with the marker doubled *)
+Example c09_marker_list_example :
+  let ds := in_db0 [(bs "l", ent (VList [marker; bs "x"]) None); (bs "after", ent (VStr (bs "v")) None)] in
+  rt_guard 0 1700000000000 1700000000000 ds = true /\
+  load_dbs (load 0 1700000000000 (save (bs "0.1.0") 0 0 1700000000000 ds)) = map (aged_db 0 0 1700000000000 1700000000000) ds.
+Proof. vm_compute. split; reflexivity. Qed.
+
+(** ---- what the guard still excludes ---- *)
 
 (** a key whose deadline passed during the downtime (repaired by e11d87f; was class
     expired-reloaded-immortal): it is loaded with the deadline "now" and is expired at once *)
@@ -111,29 +125,6 @@ Example c09_ttl_saturation_example :
   save_panics 0 1700000000000 ds = false /\
   get_entry (nth 0 (load_dbs (load 0 1700000000000 (save (bs "0.1.0") 0 0 1700000000000 ds))) empty_db) (bs "k")
   = Some (ent (VStr (bs "v")) (Some (18446744073709551615 - 1700000000000))).
-Proof. vm_compute. split; reflexivity. Qed.
-
-(** class marker-collision (F-09b): a list whose head equals the stream marker *)
-Example c09_marker_list_refuted :
-  let ds := in_db0 [(bs "l", ent (VList [marker; bs "x"]) None); (bs "after", ent (VStr (bs "v")) None)] in
-  let r := load 0 1700000000000 (save (bs "0.1.0") 0 0 1700000000000 ds) in
-  load_status r = LErr /\ load_dbs r = empty_dbs.
-Proof. vm_compute. split; reflexivity. Qed.
-
-(** class empty-stream-lost: an emptied stream is not restored *)
-Example c09_empty_stream_refuted :
-  let ds := in_db0 [(bs "st", ent (VStream {| s_entries := []; s_last := (5, 1); s_ams := fst (5, 1); s_aseq := snd (5, 1); s_len := len ([] : list (sid * list (bytes * bytes))); s_groups := [] |}) None)] in
-  let r := load 0 1700000000000 (save (bs "0.1.0") 0 0 1700000000000 ds) in
-  load_status r = LOk /\ load_dbs r = empty_dbs.
-Proof. vm_compute. split; reflexivity. Qed.
-
-(** class stream-entry-without-fields: the loader's entry loop stops early and the rest of the
-    stream is parsed as opcodes *)
-Example c09_stream_entry_without_fields_refuted :
-  let ds := in_db0 [(bs "st", ent (VStream {| s_entries := [((5, 1), [(bs "f", bs "v")]); ((6, 0), [])]; s_last := (6, 0); s_ams := fst (6, 0); s_aseq := snd (6, 0); s_len := len ([((5, 1), [(bs "f", bs "v")]); ((6, 0), [])] : list (sid * list (bytes * bytes))); s_groups := [] |}) None);
-                    (bs "zz", ent (VStr (bs "after")) None)] in
-  let r := load 0 1700000000000 (save (bs "0.1.0") 0 0 1700000000000 ds) in
-  load_status r = LErr /\ get_entry (nth 0 (load_dbs r) empty_db) (bs "zz") = None.
 Proof. vm_compute. split; reflexivity. Qed.
 
 (** NaN scores: zadd refuses them (since the repair beb3269 of the NaN-node defect), so a dump
